@@ -54,3 +54,16 @@ package pmsg
 //@     before[the_chain_exchange_is_pruned_below_the_requested_instance] arg(0) == pmm.chainex && arg(2) == instance && ok
 //@   at loopback 1
 //@     before[every_prune_request_reaches_the_chain_exchange] res(chanselect, 1, 0) == 3 ==> called(RemoveChainsByInstance, 1)
+
+// The buffer of an instance is the one kept under that instance (created on first use, with the configured capacity),
+// and the instance has a key index afterwards.
+//@ func (*PartialMessageManager).getOrInitPartialMessageBuffer
+//@   property C18 C13
+//@   modifies auto
+//@   maypanic
+//@   inlined
+//@   ensures[the_buffer_kept_under_the_instance] has(pmm.pmByInstance, instance) && pmm.pmByInstance[instance] == result
+//@   ensures[an_existing_buffer_is_reused] old(has(pmm.pmByInstance, instance)) ==> result == old(pmm.pmByInstance[instance])
+//@   ensures[the_instance_has_a_key_index] has(pmm.pmkByInstanceByChainKey, instance)
+//@   at New 1
+//@     before[capacity_is_the_configured_one] arg(0) == pmm.maxBuffMsgPerInstance
